@@ -343,4 +343,174 @@ theorem ascii_pair (a b : Nat) (ha : asciiLetter a = true) (hb : asciiLetter b =
     Bool.and_eq_true, decide_eq_true_eq, beq_iff_eq] at this
   omega
 
+/-! ## `Hash` / `NewCharSetRuntime` -/
+
+/-- a Unicode scalar value: what survives `WriteRune` / `ReadRune` -/
+def Scalar (r : Nat) : Prop := r ≤ maxRune ∧ ¬ (0xD800 ≤ r ∧ r ≤ 0xDFFF)
+
+set_option maxRecDepth 8000 in
+theorem decode_encode (r : Nat) (rest : List Nat) (h : Scalar r) : decodeRune (encodeRune r ++ rest) = (r, rest) := by
+  obtain ⟨h1, h2⟩ := h
+  unfold maxRune at h1
+  unfold encodeRune
+  by_cases c1 : r < 0x80
+  · simp [c1, decodeRune]
+  · by_cases c2 : r < 0x800
+    · simp only [c1, c2, ↓reduceIte, List.cons_append, List.nil_append, decodeRune]
+      have e1 : ¬ (0xC0 + r / 64 < 0x80) := by omega
+      have e2 : 0xC2 ≤ 0xC0 + r / 64 ∧ 0xC0 + r / 64 ≤ 0xDF := by omega
+      have e3 : isCont (0x80 + r % 64) = true := by simp [isCont]; omega
+      simp only [e1, e2, e3, and_self, ↓reduceIte]
+      congr 1; omega
+    · have c3 : ¬ ((0xD800 ≤ r ∧ r ≤ 0xDFFF) ∨ r > maxRune) := by unfold maxRune; omega
+      by_cases c4 : r < 0x10000
+      · simp only [c1, c2, c3, c4, ↓reduceIte, List.cons_append, List.nil_append, decodeRune]
+        have e1 : ¬ (0xE0 + r / 4096 < 0x80) := by omega
+        have e2 : ¬ (0xC2 ≤ 0xE0 + r / 4096 ∧ 0xE0 + r / 4096 ≤ 0xDF) := by omega
+        have e3 : 0xE0 ≤ 0xE0 + r / 4096 ∧ 0xE0 + r / 4096 ≤ 0xEF := by omega
+        have e4 : isCont (0x80 + r % 64) = true := by simp [isCont]; omega
+        have e5 : (if 0xE0 + r / 4096 = 0xE0 then 0xA0 else 0x80) ≤ 0x80 + r / 64 % 64 ∧
+            0x80 + r / 64 % 64 ≤ (if 0xE0 + r / 4096 = 0xED then 0x9F else 0xBF) ∧ isCont (0x80 + r % 64) = true := by
+          refine ⟨?_, ?_, e4⟩
+          · split <;> omega
+          · split <;> omega
+        simp only [e1, e2, e3, e5, and_self, ↓reduceIte]
+        congr 1; omega
+      · simp only [c1, c2, c3, c4, ↓reduceIte, List.cons_append, List.nil_append, decodeRune]
+        have e1 : ¬ (0xF0 + r / 262144 < 0x80) := by omega
+        have e2 : ¬ (0xC2 ≤ 0xF0 + r / 262144 ∧ 0xF0 + r / 262144 ≤ 0xDF) := by omega
+        have e3 : ¬ (0xE0 ≤ 0xF0 + r / 262144 ∧ 0xF0 + r / 262144 ≤ 0xEF) := by omega
+        have e4 : 0xF0 ≤ 0xF0 + r / 262144 ∧ 0xF0 + r / 262144 ≤ 0xF4 := by omega
+        have e5 : (if 0xF0 + r / 262144 = 0xF0 then 0x90 else 0x80) ≤ 0x80 + r / 4096 % 64 ∧
+            0x80 + r / 4096 % 64 ≤ (if 0xF0 + r / 262144 = 0xF4 then 0x8F else 0xBF) ∧
+            isCont (0x80 + r / 64 % 64) = true ∧ isCont (0x80 + r % 64) = true := by
+          refine ⟨?_, ?_, by simp [isCont]; omega, by simp [isCont]; omega⟩
+          · split <;> omega
+          · split <;> omega
+        simp only [e1, e2, e3, e4, e5, and_self, ↓reduceIte]
+        congr 1; omega
+
+theorem readInt32_int32 (n : Nat) (rest : List Nat) (h : n < 2 ^ 32) : readInt32LE (int32LE n ++ rest) = (n, rest) := by
+  simp only [int32LE, List.cons_append, List.nil_append, readInt32LE]
+  congr 1; omega
+
+theorem readRanges_spec : ∀ (rs : List (Nat × Nat)) (rest : List Nat), (∀ r ∈ rs, Scalar r.1 ∧ Scalar r.2) →
+    readRanges rs.length (rs.flatMap (fun r => encodeRune r.1 ++ encodeRune r.2) ++ rest) = (rs, rest) := by
+  intro rs
+  induction rs with
+  | nil => intro rest _; rfl
+  | cons r rs ih =>
+    intro rest h
+    have hr := h r (List.mem_cons_self ..)
+    simp only [List.length_cons, readRanges, List.flatMap_cons, List.append_assoc]
+    rw [decode_encode r.1 _ hr.1]
+    simp only
+    rw [decode_encode r.2 _ hr.2]
+    simp only
+    rw [ih rest (fun x hx => h x (List.mem_cons_of_mem _ hx))]
+
+/-- a category entry survives the serialisation: its name is at most 127 bytes, not empty when the entry is
+negated (the sign of the `int8` length carries `Negate`), and `idOf` inverts `nameOf` on it -/
+def CatOk (nameOf : Nat → List Nat) (idOf : List Nat → Nat) (c : Nat × Bool) : Prop :=
+  idOf (nameOf c.1) = c.1 ∧ (nameOf c.1).length ≤ 127 ∧ (c.2 = true → 0 < (nameOf c.1).length)
+
+theorem readCats_spec (nameOf : Nat → List Nat) (idOf : List Nat → Nat) : ∀ (cs : List (Nat × Bool)) (rest : List Nat),
+    (∀ c ∈ cs, CatOk nameOf idOf c) →
+    readCats idOf cs.length (cs.flatMap (hashCat nameOf) ++ rest) = (cs, rest) := by
+  intro cs
+  induction cs with
+  | nil => intro rest _; rfl
+  | cons c cs ih =>
+    intro rest h
+    obtain ⟨h1, h2, h3⟩ := h c (List.mem_cons_self ..)
+    have ih' := ih rest (fun x hx => h x (List.mem_cons_of_mem _ hx))
+    simp only [List.length_cons, List.flatMap_cons, hashCat, List.cons_append, List.append_assoc, readCats]
+    obtain ⟨id, ng⟩ := c
+    simp only at h1 h2 h3 ⊢
+    cases ng with
+    | false =>
+      have e2 : (nameOf id).length % 256 = (nameOf id).length := by omega
+      have e1 : ¬ ((nameOf id).length ≥ 128) := by omega
+      simp only [Bool.false_eq_true, ↓reduceIte, e2, e1, decide_false, List.take_left', List.drop_left', ih', h1]
+    | true =>
+      have hp := h3 rfl
+      have e0 : (256 - (nameOf id).length % 256) % 256 = 256 - (nameOf id).length := by omega
+      have e1 : 256 - (nameOf id).length ≥ 128 := by omega
+      have e2 : 256 - (256 - (nameOf id).length) = (nameOf id).length := by omega
+      simp only [↓reduceIte, e0, e1, decide_true, e2, List.take_left', List.drop_left', ih', h1]
+
+/-- what the serialisation needs of one `CharSet` -/
+def Flat.HashOk (nameOf : Nat → List Nat) (idOf : List Nat → Nat) (f : Flat) : Prop :=
+  f.ranges.length < 2 ^ 31 ∧ f.cats.length < 2 ^ 31 ∧ (∀ r ∈ f.ranges, Scalar r.1 ∧ Scalar r.2) ∧
+    ∀ c ∈ f.cats, CatOk nameOf idOf c
+
+def Class.HashOk (nameOf : Nat → List Nat) (idOf : List Nat → Nat) : Class → Prop
+  | .leaf f => f.HashOk nameOf idOf
+  | .minus f s => f.HashOk nameOf idOf ∧ Class.HashOk nameOf idOf s
+
+def Class.depth : Class → Nat
+  | .leaf _ => 0
+  | .minus _ s => s.depth + 1
+
+theorem hashFill_length (nameOf : Nat → List Nat) (f : Flat) : 9 ≤ (f.hashFill nameOf).length := by
+  simp [Flat.hashFill, int32LE] <;> omega
+
+theorem hash_length (nameOf : Nat → List Nat) (c : Class) : c.depth < (Class.hash nameOf c).length := by
+  induction c with
+  | leaf f => have := hashFill_length nameOf f; simp [Class.hash, Class.depth]; omega
+  | minus f s ih => have := hashFill_length nameOf f; simp [Class.hash, Class.depth]; omega
+
+/-- reading back one level: the four fields and what is left of the buffer -/
+theorem read_level (nameOf : Nat → List Nat) (idOf : List Nat → Nat) (f : Flat) (hf : f.HashOk nameOf idOf)
+    (rest : List Nat) :
+    let buf := f.hashFill nameOf ++ rest
+    let lr := readInt32LE (buf.drop 1)
+    let lc := readInt32LE lr.2
+    let rs := readRanges lr.1 lc.2
+    let cs := readCats idOf lc.1 rs.2
+    ((buf.headD 0) % 2 == 1) = f.neg ∧ ((buf.headD 0) / 2 % 2 == 1) = f.anything ∧ rs.1 = f.ranges ∧ cs.1 = f.cats ∧ cs.2 = rest := by
+  obtain ⟨h1, h2, h3, h4⟩ := hf
+  simp only [Flat.hashFill, List.append_assoc, List.cons_append, List.nil_append, List.headD_cons, List.drop_succ_cons, List.drop_zero]
+  rw [readInt32_int32 _ _ (by omega)]
+  simp only
+  rw [readInt32_int32 _ _ (by omega)]
+  simp only
+  rw [readRanges_spec f.ranges _ h3]
+  simp only
+  rw [readCats_spec nameOf idOf f.cats rest h4]
+  refine ⟨?_, ?_, trivial, rfl, rfl⟩
+  · cases f.neg <;> cases f.anything <;> rfl
+  · cases f.neg <;> cases f.anything <;> rfl
+
+/-- the round trip on structures: reading the hash back gives the class itself, as `Copy()` gives it (no
+`building` mark, no bitmap) -/
+theorem newCharSetRuntime_hash (nameOf : Nat → List Nat) (idOf : List Nat → Nat) : ∀ (c : Class) (fuel : Nat),
+    Class.HashOk nameOf idOf c → c.depth < fuel → newCharSetRuntime idOf fuel (Class.hash nameOf c) = c.copy := by
+  intro c
+  induction c with
+  | leaf f =>
+    intro fuel hok hfuel
+    cases fuel with
+    | zero => omega
+    | succ fuel =>
+      have := read_level nameOf idOf f hok []
+      simp only [List.append_nil] at this
+      obtain ⟨e1, e2, e3, e4, e5⟩ := this
+      simp only [newCharSetRuntime, Class.hash, e1, e2, e3, e4, e5, List.length_nil, Nat.lt_irrefl, ↓reduceIte, Class.copy, Flat.copy]
+  | minus f s ih =>
+    intro fuel hok hfuel
+    cases fuel with
+    | zero => omega
+    | succ fuel =>
+      obtain ⟨e1, e2, e3, e4, e5⟩ := read_level nameOf idOf f hok.1 (Class.hash nameOf s)
+      have hpos : (Class.hash nameOf s).length > 0 := by have := hash_length nameOf s; omega
+      simp only [Class.depth] at hfuel
+      simp only [newCharSetRuntime, Class.hash, e1, e2, e3, e4, e5, hpos, ↓reduceIte, Class.copy, Flat.copy,
+        ih fuel hok.2 (by omega)]
+
+theorem memAlg_copy (cat : Nat → Nat → Bool) (c : Class) (ch : Nat) : memAlg cat c.copy ch = memAlg cat c ch := by
+  induction c with
+  | leaf f => simp [Class.copy, Flat.copy, memAlg, Flat.memAlg, Flat.pos]
+  | minus f s ih => simp [Class.copy, Flat.copy, memAlg, Flat.memAlg, Flat.pos, ih]
+
 end RegexVerif.Class
